@@ -1,4 +1,4 @@
-import Sop.Lemmas.Merge
+import Sop.Lemmas.MergeDisjoint
 import Sop.Gen.FactsMerge
 /-!
 # C04 — concurrent transactions with disjoint changes to one store all commit
@@ -86,17 +86,6 @@ theorem merge_never_exits {db : DB} {n : Nat} {ts : List Tr} (hn : (ts.map (·.k
       net r.pending = net ts :=
   let ⟨r, h, hp, ht, _⟩ := replay_ok (n := n) hn hv
   ⟨r, h, hp, ht, replay_net h⟩
-
-theorem find_applyAll_ne {ts : List Tr} : ∀ {db : DB} {k : Nat}, k ∉ ts.map (·.key) → find (applyAll db ts) k = find db k := by
-  induction ts with
-  | nil => intro db k _; rfl
-  | cons t r ih =>
-    intro db k hk
-    simp at hk
-    simp only [applyAll, List.foldl_cons]
-    have := ih (db := applyTr db t) (k := k) (by simpa using hk.2)
-    simp only [applyAll] at this
-    rw [this, find_applyTr_ne hk.1]
 
 /-- another writer's install (changes on other keys) leaves an action valid -/
 theorem valid_after_foreign_install {db : DB} {ts : List Tr} {t : Tr} (hk : t.key ∉ ts.map (·.key)) :
